@@ -33,7 +33,26 @@ def skips_unconnected(cn):
     In both, every use of conn.cost, new_cost and every assignment to min_cost / prev_idx inside the loop is under the guard."""
     m = re.search(r"for\s*\(\s*\w+\s*,\s*l_node\s*\)\s*in\s+self\.ends\[begin\]\.iter\(\)\.enumerate\(\)\s*\{", cn)
     if not m:
-        return False
+        # third spelling: the loop runs over `self.ends[begin].iter().enumerate().filter(|(_, n)| n.is_connected_to_bos())`
+        # (enumerate BEFORE the filter, so the indices are the positions in the row; nothing after the filter), written in
+        # the loop header or bound to a local that is used by the loop only
+        src = (r"self\.ends\[begin\]\s*\.iter\(\)\s*\.enumerate\(\)\s*\.filter\(\s*\|\s*&?\s*\(\s*_\s*,\s*(\w+)\s*\)\s*\|"
+               r"\s*(\w+)\.is_connected_to_bos\(\)\s*\)")
+        head = r"for\s*\(\s*\w+\s*,\s*l_node\s*\)\s*in\s+"
+        f = re.search(head + src + r"\s*\{", cn)
+        if f and f.group(1) == f.group(2):
+            end = f.end()
+        else:
+            f = re.search(r"let\s+(\w+)\s*=\s*" + src + r"\s*;", cn)
+            if not f or f.group(2) != f.group(3):
+                return False
+            v = f.group(1)
+            g = re.search(head + re.escape(v) + r"\s*\{", cn[f.end():])
+            if not g or len(re.findall(r"(?<![\w\.])%s(?!\w)" % re.escape(v), cn)) != 2:
+                return False
+            end = f.end() + g.end()
+        body, _ = _block(cn, end - 1)
+        return re.search(r"conn\.cost\(|\bnew_cost\b|\bmin_cost\s*=[^=]|\bprev_idx\s*=[^=]", body) is not None
     body, _ = _block(cn, m.end() - 1)
     work = r"conn\.cost\(|\bnew_cost\b|\bmin_cost\s*=[^=]|\bprev_idx\s*=[^=]"
     g = re.match(r"\s*if\s+!\s*l_node\.is_connected_to_bos\(\)\s*\{\s*continue\s*;\s*\}", body)
